@@ -515,6 +515,10 @@ type pxPools struct {
 	subVals   []string // values of /k=... name parts
 	fixedPool []string
 	orders    []string
+	// C08 gap classes (zero for other users of the pools, whose streams then
+	// draw exactly the random numbers they drew before)
+	zeroP float64 // a result has no values at all
+	dupP  float64 // a result is projected again later; late results lacking the newest keys, repeated
 }
 
 var c08Pools = pxPools{
@@ -527,6 +531,8 @@ var c08Pools = pxPools{
 	subVals:   []string{"1", "2", "x", "1k", ""},
 	fixedPool: []string{"linux", "darwin", "1", "2", "amd64", "v1", "x"},
 	orders:    []string{"first", "first", "first", "alpha", "num", "fixed"},
+	zeroP:     0.1,
+	dupP:      0.12,
 }
 
 // hot is the part of a value pool that streams draw from most of the time, so
@@ -672,7 +678,30 @@ func (pl *pxPools) stream(r *hx.Rng, n int) []pxResult {
 		for j := 0; j < nu; j++ {
 			res.Units = append(res.Units, units[(i+j)%3])
 		}
+		if pl.zeroP > 0 && r.Chance(pl.zeroP) {
+			res.Units = nil // e.g. every value filtered away
+		}
 		out = append(out, res)
+		if pl.dupP > 0 && r.Chance(pl.dupP) {
+			// an earlier result (or this one) once more
+			out = append(out, out[r.Intn(len(out))])
+		}
+		if pl.dupP > 0 && i >= n/2 && r.Chance(pl.dupP) {
+			// a NEW tuple that has only the oldest keys (trailing fields empty after
+			// the field set has grown), projected two or three times
+			late := pxResult{Name: r.Pick(bases), Units: []string{units[i%3]}}
+			for j, m := 0, r.Range(1, 2); j < m && j < len(keys); j++ {
+				late.Config = append(late.Config, [3]string{keys[j], fmt.Sprintf("late%d", i), "file"})
+			}
+			out = append(out, late)
+			if r.Chance(0.5) {
+				out = append(out, res)
+			}
+			out = append(out, late)
+			if r.Chance(0.3) {
+				out = append(out, late)
+			}
+		}
 	}
 	return out
 }
@@ -782,7 +811,7 @@ func (pl *pxPools) freeOps(r *hx.Rng, n int) ([]pxOp, error) {
 }
 
 func genC08(o *hx.Out, r *hx.Rng, tier string, replay string) error {
-	o.Rule = "one ProjectionParser per run. proto cases: 2-5 projection expressions (.config, .fullname, .name, /k, plain keys; orders first/alpha/num/fixed lists; some with .unit) parsed in every order (all permutations up to 5 expressions = 120) or in a few orders including repeated Parse calls, then Residue, then a stream of 5-60 results over a growing set of config keys (file/internal, empty values), sub-name keys (duplicates, bare prefixes), gomaxprocs suffixes and units, every result projected through every projection and the residue. free cases: random interleavings of Parse (valid and failing), Residue (also repeated), Project and ProjectValues. non-trivial = every case; distinct by expression texts and stream"
+	o.Rule = "one ProjectionParser per run. proto cases: 2-5 projection expressions (.config, .fullname, .name, /k, plain keys; orders first/alpha/num/fixed lists; some with .unit) parsed in every order (all permutations up to 5 expressions = 120) or in a few orders including repeated Parse calls, then Residue, then a stream of 5-60 results over a growing set of config keys (file/internal, empty values), sub-name keys (duplicates, bare prefixes), gomaxprocs suffixes and units, every result projected through every projection and the residue. free cases: random interleavings of Parse (valid and failing), Residue (also repeated), Project and ProjectValues. In all streams about a tenth of the results have NO values (ProjectValues returns no Key), results recur, and new tuples over only the oldest config keys appear late and are projected 2-3 times. zero-values family: a ParseWithUnit projection holding .config, a result without values that brings 1-2 unseen config keys (also twice in a row), then results lacking those keys, the keys again with values; grow family: .config projections, the field set grown key by key, then new tuples over the 0-2 oldest keys projected repeatedly, more growth, the same tuples again; gomaxprocs family: /gomaxprocs and /size (or /a) with .fullname explicit or via Residue, fields shuffled and cut into 1-3 expressions, every parse order, on names spelling GOMAXPROCS as -N and as /gomaxprocs=N (X-8 next to X/gomaxprocs=8, X/size=1-8 next to X/size=1/gomaxprocs=8). non-trivial = every case; distinct by expression texts and stream"
 	pl := &c08Pools
 	mul := 1
 	if tier == "thorough" {
@@ -815,6 +844,18 @@ func genC08(o *hx.Out, r *hx.Rng, tier string, replay string) error {
 			return err
 		}
 		if err := pxFreeCase(o, r, ops, false); err != nil {
+			return err
+		}
+	}
+	// gap classes (c08gaps.go)
+	for i := 0; i < 60*mul; i++ {
+		if err := c08Zero(o, r, pl); err != nil {
+			return err
+		}
+		if err := c08Grow(o, r, pl); err != nil {
+			return err
+		}
+		if err := c08Gomax(o, r, pl); err != nil {
 			return err
 		}
 	}
